@@ -47,7 +47,8 @@ Record ginv (s : sys) (T : N) : Prop := {
                F s T FPcRep = 0 /\ F s T FPcOk = 0 /\ F s T FPcRb = 0;
   g_rb_dead : forall r ks, In (ERbSend r T ks) (s_sent s) -> F s T FDead <> 0;
   g_pwok : forall k, In k (pwok s T) -> pwdlv s T k;
-  g_told_dead : F s T FTold = 2 \/ F s T FTold = 3 -> F s T FDead <> 0
+  g_told_dead : F s T FTold = 2 \/ F s T FTold = 3 -> F s T FDead <> 0;
+  g_1pcts : F s T F1pcTs <> 0 -> F s T FTried1 <> 0
 }.
 
 (* ---- invariants of a classic transaction whose mutations are known ---- *)
@@ -67,8 +68,7 @@ Record tinv (s : sys) (T : N) : Prop := {
   t_rb_sent : forall r ks, In (ERbSend r T ks) (s_sent s) -> Dn s T;                                          (* J5 *)
   t_told_err : F s T FTold = 3 -> Dn s T;
   t_rb_dead : forall k, In k (lm s T) -> kget s T k = RolledBack -> Dd s T;
-  t_told_ok : F s T FTold = 1 -> exists c, kget s T (prim s T) = Committed c;
-  t_1pcts : F s T F1pcTs = 0
+  t_told_ok : F s T FTold = 1 -> exists c, kget s T (prim s T) = Committed c
 }.
 
 Definition Inv (s : sys) : Prop := forall T, ginv s T /\ (hasm s T -> classic s T -> tinv s T).
